@@ -67,7 +67,7 @@ Expected(e) ==
       [] e.op = "ctor" -> StepMat(e.n, e.st)
       \* by induction over the recorded matrices: the matrix after call i is Step_i times the matrix after call i-1
       \* (equal to ChainMat(e.n, e.steps, i); written this way because TLC re-evaluates nested recursive products)
-      [] e.op = "chain" -> [i \in 1 .. Len(e.steps) |-> MatMul(StepMat(e.n, e.steps[i]), IF i = 1 THEN Idn(e.n) ELSE e.obs[i - 1])]
+      [] e.op = "chain" -> [i \in 1 .. Len(e.steps) |-> MatMul(StepMat(e.n, e.steps[i]), IF i = 1 THEN (IF "start" \in DOMAIN e THEN e.start ELSE Idn(e.n)) ELSE e.obs[i - 1])]
       [] e.op = "mul_point" -> XYZ(MatVec(e.a, Point4(e.v)))
       [] e.op = "mul_dir" -> XYZ(MatVec(e.a, Dir4(e.v)))
       [] e.op = "mul_point_2d" -> XY(MatVec(e.a, Point3(e.v)))
@@ -75,7 +75,7 @@ Expected(e) ==
       [] e.op = "from_transform" -> XformMat(e.pos, e.q, e.scale)
       [] e.op = "local_to_basis" -> LocalToBasis(e.o, e.i, e.j, e.k)
       [] e.op = "basis_to_local" -> BasisToLocal(e.o, e.i, e.j, e.k)
-AxiomOps == {"from_to", "angle_axis", "look_at", "angle_axis_f"}
+AxiomOps == {"from_to", "angle_axis", "look_at", "angle_axis_f", "from_to_f"}
 
 \* operations validated by what the result must DO rather than by a formula
 FromToOk(e) ==
@@ -107,6 +107,11 @@ Extra(e) ==
       \* angle-axis description, so the extraction must return the pair the quaternion was built from (to 2^-12 relative)
       [] e.op = "angle_axis_f" -> /\ e.obs.ang - e.ang \in (0 - (e.ang \div 4096) - 8) .. ((e.ang \div 4096) + 8)
                                   /\ \A i \in 1 .. 3 : e.obs.axis[i] - e.axis[i] \in -256 .. 256
+      \* floats, plain integers (unit vectors * 2^20, tolerance e.tol): the rotation built from a pair of directions maps from/|from|
+      \* onto to/|to| and is a unit quaternion WHATEVER the two lengths are (very long, very short, very different); the exact
+      \* lane cannot see a wrong branch that ends in an irrational square root (its sample is dropped as inconclusive)
+      [] e.op = "from_to_f" -> /\ \A i \in 1 .. 3 : e.obs.img[i] - e.obs.to[i] \in (0 - e.tol) .. e.tol
+                               /\ e.obs.n2 - 1048576 \in (0 - e.tol) .. e.tol
       \* basis_to_local undoes local_to_basis for an orthonormal basis
       [] e.op = "basis_to_local" -> e.ortho = 1 => MatMul(e.obs, LocalToBasis(e.o, e.i, e.j, e.k)) = Idn(4)
       [] e.op = "local_to_basis" -> /\ MulPoint(e.obs, VZero(3)) = e.o /\ MulPoint(e.obs, Unit(3, 1)) = VAdd(e.o, e.i)
@@ -144,6 +149,7 @@ QuatMagnitude == Step("quat_magnitude")
 FromTo == Step("from_to")
 AngleAxis == Step("angle_axis")
 AngleAxisF == Step("angle_axis_f")
+FromToF == Step("from_to_f")
 Ctor == Step("ctor")
 Chain == Step("chain")
 MulPointA == Step("mul_point")
@@ -154,7 +160,7 @@ FromTransform == Step("from_transform")
 LookAt == Step("look_at")
 LocalToBasisA == Step("local_to_basis")
 BasisToLocalA == Step("basis_to_local")
-Next == AngleAxisF \/ RotAxis \/ Rot3d \/ MatOfQuat \/ QuatRotA \/ Vec2Rot \/ QuatMulA \/ QuatAdd \/ QuatSub \/ QuatDot \/ QuatNeg
+Next == AngleAxisF \/ FromToF \/ RotAxis \/ Rot3d \/ MatOfQuat \/ QuatRotA \/ Vec2Rot \/ QuatMulA \/ QuatAdd \/ QuatSub \/ QuatDot \/ QuatNeg
         \/ QuatConjA \/ QuatInvA \/ QuatNorm2A \/ QuatMulS \/ QuatDivS \/ QuatMulV3 \/ QuatMulV4 \/ QuatCompose \/ QuatConv
         \/ QuatNormalized \/ QuatMagnitude \/ FromTo \/ AngleAxis \/ Ctor \/ Chain \/ MulPointA \/ MulDirA \/ MulPoint2d
         \/ MulDir2d \/ FromTransform \/ LookAt \/ LocalToBasisA \/ BasisToLocalA
